@@ -30,4 +30,5 @@ def plan(tier, seed):
                 outside=["free token sequences longer than N", "string contents (C04/C06)",
                          "the lexer on arbitrary bytes (C02 lemmas)"],
                 assumptions=COMMON_ASSUME, stubs=["LazyScript(bytearray) supplies the script"])
-    return dict(conds=conds, meta=meta)
+    from engine import e2
+    return dict(conds=conds, meta=meta, obligations=e2.c01_obligations())
